@@ -24,7 +24,7 @@ fn sync(mut b: Vec<u8>) -> Vec<u8> {
 }
 
 pub const PROGRAMS: &[&str] = &[
-    "prepare-then-bind", "two-names", "describe", "close-reparse", "two-binds-one-batch", "lru-order", "collide-a", "collide-b", "same-text-other-types", "parse-bind-same-batch", "case-variant", "error-parse", "error-parse-twice", "error-then-parse-one-batch", "bind-close-reparse-one-batch", "sql-prepare-between", "sql-prepare-only",
+    "prepare-then-bind", "two-names", "describe", "close-reparse", "two-binds-one-batch", "lru-order", "collide-a", "collide-b", "same-text-other-types", "parse-bind-same-batch", "case-variant", "error-parse", "error-parse-twice", "error-then-parse-one-batch", "three-parses-one-batch", "ext-copy-evicts", "bind-close-reparse-one-batch", "sql-prepare-between", "sql-prepare-only",
 ];
 
 /// Program for client `c`. Texts carry the client's tag so that results are attributable.
@@ -167,6 +167,31 @@ pub fn program(c: usize, prog: &str) -> Script {
             let mut b = p("a", &t2, &[]);
             b.extend(be("a", &t(1)));
             s = s.send_z(sync(b), "P(a,T2) B E S");
+            s = s.send_z(sync(be("a", &t(2))), "B(a) E S");
+        }
+        "three-parses-one-batch" => {
+            // three new statements in one batch: with a small cache one batch evicts more than one statement
+            let mut b = p("a", &t1, &[]);
+            b.extend(p("b", &t2, &[]));
+            b.extend(p("c", &t3, &[]));
+            b.extend(be("c", &t(1)));
+            s = s.send_z(sync(b), "P(a,T1) P(b,T2) P(c,T3) B(c) E S");
+            s = s.q(&format!("SELECT 'plain' /*{}*/", t(2)));
+            s = s.send_z(sync(be("a", &t(3))), "B(a) E S");
+            s = s.send_z(sync(be("b", &t(4))), "B(b) E S");
+        }
+        "ext-copy-evicts" => {
+            // a COPY FROM STDIN prepared and run over the extended protocol evicts a cached statement while
+            // the server is in COPY mode: it is closed when the COPY is over, and a is re-prepared on demand
+            s = s.send_z(sync(p("a", &t1, &[])), "P(a,T1) S");
+            let mut b = p("c", &format!("COPY t FROM STDIN /*by c{}*/", c), &[]);
+            b.extend(wire::bind("", "c", &[], &[], &[]));
+            b.extend(wire::execute("", 0));
+            b.extend(wire::sync());
+            let mut end = wire::copy_done();
+            end.extend(wire::sync());
+            s = s.send(b, "P(c,COPY) B E S").wait(crate::world::Cond::CodeOrClosed(b'G', 1)).send(wire::copy_data(b"1\n"), "d").send_z(end, "c S");
+            s = s.send_z(sync(be("a", &t(1))), "B(a) E S");
             s = s.send_z(sync(be("a", &t(2))), "B(a) E S");
         }
         "error-then-parse-one-batch" => {
@@ -495,6 +520,8 @@ pub fn build(tier: &str) -> SimCheck {
                     ("error-parse-twice", "prepare-then-bind"),
                     ("error-parse-twice", "error-parse-twice"),
                     ("error-then-parse-one-batch", "prepare-then-bind"),
+                    ("three-parses-one-batch", "prepare-then-bind"),
+                    ("ext-copy-evicts", "prepare-then-bind"),
                     ("case-variant", "prepare-then-bind"),
                     ("prepare-then-bind", "sql-prepare-only"),
                     ("two-names", "sql-prepare-only"),
@@ -523,7 +550,7 @@ pub fn build(tier: &str) -> SimCheck {
         oracle: Box::new(oracle),
         bound: if thorough { 3 } else { 2 },
         limits: Limits { max_wall_s: if thorough { 1500.0 } else { 50.0 }, ..Default::default() },
-        rule: "generated: every batch of <= 2 (thorough 3) items over {P(a,T1), P(a,T2), P(b,T2), B(a)E, B(b)E, D(S,a), C(S,a), C(S,b), unnamed P B E, C(P,''), B E on a portal named like its statement, C(P,a)} after the prefixes {none, a prepared, a and b prepared}, followed by a probe Bind of a or b, kept when valid on a direct connection, x cache size {1,2,8}; hand-written: scenario = server/pool statement cache size {1,2,8} x pool_size {1,2} x one or two client programs over shared names a/b (prepare then bind across transactions, two names, Describe, Close + re-Parse with new text, two Binds in one batch, LRU order, structurally colliding (text, n, types) encodings, same text with other types, Parse+Bind pairs in one batch, case variants, rejected Parse, the same rejected text parsed again under the same and another name, a rejected and a good Parse in one batch, a name bound, closed and re-prepared with another known text in one batch, a simple-protocol PREPARE (which makes the pooler DEALLOCATE ALL at check-in) between uses of a protocol-level statement); a RELOAD that rebuilds the pool (fresh statement cache) between the uses of a name by two clients; all schedules with <= bound deviations; oracle = direct-connection reference per client".into(),
+        rule: "generated: every batch of <= 2 (thorough 3) items over {P(a,T1), P(a,T2), P(b,T2), B(a)E, B(b)E, D(S,a), C(S,a), C(S,b), unnamed P B E, C(P,''), B E on a portal named like its statement, C(P,a)} after the prefixes {none, a prepared, a and b prepared}, followed by a probe Bind of a or b, kept when valid on a direct connection, x cache size {1,2,8}; hand-written: scenario = server/pool statement cache size {1,2,8} x pool_size {1,2} x one or two client programs over shared names a/b (prepare then bind across transactions, two names, Describe, Close + re-Parse with new text, two Binds in one batch, LRU order, structurally colliding (text, n, types) encodings, same text with other types, Parse+Bind pairs in one batch, case variants, rejected Parse, the same rejected text parsed again under the same and another name, a rejected and a good Parse in one batch, three new statements in one batch (several evictions at once), an extended-protocol COPY that evicts a statement, a name bound, closed and re-prepared with another known text in one batch, a simple-protocol PREPARE (which makes the pooler DEALLOCATE ALL at check-in) between uses of a protocol-level statement); a RELOAD that rebuilds the pool (fresh statement cache) between the uses of a name by two clients; all schedules with <= bound deviations; oracle = direct-connection reference per client".into(),
         assumptions: vec!["the reference backend without a pooler defines the direct-connection behaviour; synthesised ParseComplete/CloseComplete may be reordered within a reply".into()],
     }
 }
